@@ -3,7 +3,7 @@
     notations fully expanded) and coq/K/Exec.v (rewrite_event, from_proof_hints, from_kore_definition's
     rule loading, get_proof_hints).  Proofs: K/KoreProofs.v, K/ExecProofs.v.  Only statements here. *)
 From Coq Require Import String Ascii NArith List Bool.
-From Pi2 Require Import K.Kore K.Exec K.KoreProofs K.ExecProofs.
+From Pi2 Require Import K.Kore K.Exec K.KoreProofs K.ExecProofs K.Accept.
 Import ListNotations.
 Open Scope string_scope.
 Open Scope list_scope.
@@ -236,6 +236,33 @@ Theorem C20_module_accepted_partial : forall G S hs m,
   /\ Forall (fun h => r_kind (h_rule h) = RRewrite /\ functional_axioms S (h_subst h) <> None) hs.
 Proof. exact claims_derivable_thm. Qed.
 Print Assumptions C20_module_accepted_partial.
+
+(** second part of what is proved towards acceptance, against the checker model itself
+    (lead's ML/Subst.v [inst] = lib.rs instantiate_internal, ANY guard configuration [g]): for every
+    step, the checker's Instantiate rule applied to the encoded published axiom, with ids and plugs
+    in the order the machine receives them, computes exactly the encoded claim -- so the Publish
+    instruction's comparison with the claim succeeds.  [sym] is any symbol table (the serialiser's
+    first-occurrence numbering is one); a Python dict has no duplicate key ([NoDup]).
+    Still missing for the full statement: the byte-level serialiser and the machine run. *)
+Theorem C20_module_accepted_instantiate_partial : forall (sym:string -> N) g G S hs m,
+  from_hints G S hs = Some m ->
+  Forall (fun h => NoDup (map fst (h_subst h))) hs ->
+  Forall2 (fun c ad =>
+             In (fst ad) (m_axioms m)
+             /\ Pi2.ML.Subst.inst g (enc sym (fst ad)) (rev (ids_of (snd ad))) (rev (plugs_of sym (snd ad)))
+                = Some (enc sym c))
+          (m_claims m) (m_proofs m).
+Proof. exact steps_check_thm. Qed.
+Print Assumptions C20_module_accepted_instantiate_partial.
+
+Example C20_module_accepted_instantiate_nonvacuous :
+  Forall (fun h => NoDup (map fst (h_subst h))) (hints_of (kf ka) good_items)
+  /\ exists h, In h (hints_of (kf ka) good_items) /\ h_subst h <> [].
+Proof.
+  split.
+  - vm_compute. repeat constructor; simpl; tauto.
+  - vm_compute. eexists. split; [left; reflexivity | discriminate].
+Qed.
 
 (** ** 5. End to end, from parsed Kore objects and LLVM-style hint events: the claims of a generated
     module are, in order, the conversions of the rewrite axioms (side conditions dropped) with the
